@@ -33,6 +33,13 @@ def run_solved(item):
     with contextlib.redirect_stdout(io.StringIO()):
         pep, f, part = drv_c04.build(cls, P, item["decls"], item["order"], names=names)
     st, val = drv_c04.solve(pep)
+    if item.get("resolve") and st == "ok":
+        try:
+            f.get_class_constraints_duals()          # the user reads the tables after the first solve
+        except Exception:
+            pass
+        pep.list_of_performance_metrics[0] = 2 * pep.list_of_performance_metrics[0]      # edit without any new sample
+        st, val = drv_c04.solve(pep)
     h = [dict(e=tok, k=0) for tok in (item["decls"][i - 1] for i in item["order"])]
     if st != "ok":
         return dict(kind="tables", cls=cls, P=P, h=h, hs="", names=names, solved=1, status=st, skip=1)
@@ -41,4 +48,5 @@ def run_solved(item):
     out["status"] = st
     out["value"] = val
     out["skip"] = 0
+    out["resolve"] = 1 if item.get("resolve") else 0
     return out
